@@ -29,7 +29,10 @@ Inductive fk :=
 | FLoop (ret : option (nat * bool)).   (* Some (pc, end_capture): frame of a loop entered by a recursion call *)
 Inductive slot := V | B.
 
-Record shape := mkShape { frames : list fk; caps : nat; aes : nat; stk : list slot }.
+(* [ext]: this activation has executed LoadBlocks (`extends`): the rest of the template runs with the
+   output silenced by a discard capture (counted in [caps]) that the hand-over to the parent
+   template ends when the stream is finished *)
+Record shape := mkShape { frames : list fk; caps : nat; aes : nat; stk : list slot; ext : bool }.
 
 Inductive instr :=
 | IStack (pops pushes : nat)      (* pure operand effect on single values *)
@@ -50,7 +53,8 @@ Inductive instr :=
 | IBeginCapture | IEndCapture
 | IReturn
 | ICall (dyn : bool)              (* CallFunction with one argument (dyn: a counted bundle): the callee may be a loop object *)
-| IRecurse.                       (* FastRecurse *)
+| IRecurse                        (* FastRecurse *)
+| ILoadBlocks.                    (* pops the parent's name, begins the discard capture; a second one is an error *)
 
 Definition opt_eqb (a b : option (nat * bool)) : bool :=
   match a, b with
@@ -69,10 +73,10 @@ Fixpoint list_eqb {A} (e : A -> A -> bool) (a b : list A) : bool :=
   end.
 Definition shape_eqb (a b : shape) : bool :=
   list_eqb fk_eqb (frames a) (frames b) && Nat.eqb (caps a) (caps b) && Nat.eqb (aes a) (aes b)
-  && list_eqb slot_eqb (stk a) (stk b).
+  && list_eqb slot_eqb (stk a) (stk b) && Bool.eqb (ext a) (ext b).
 
-Definition with_stk (s : shape) (k : list slot) : shape := mkShape (frames s) (caps s) (aes s) k.
-Definition with_frames (s : shape) (f : list fk) : shape := mkShape f (caps s) (aes s) (stk s).
+Definition with_stk (s : shape) (k : list slot) : shape := mkShape (frames s) (caps s) (aes s) k (ext s).
+Definition with_frames (s : shape) (f : list fk) : shape := mkShape f (caps s) (aes s) (stk s) (ext s).
 
 (* pops n single values *)
 Fixpoint popV (n : nat) (k : list slot) : option (list slot) :=
@@ -108,7 +112,7 @@ Definition edges (i : instr) (pc : nat) (s : shape) : option (list (nat * shape)
   | IPushWith => next (with_frames s (FWith :: frames s))
   | IPopFrame => match frames s with FWith :: f => next (with_frames s f) | _ => None end
   | IPushLoop _ => match stk s with
-                   | V :: k => next (mkShape (FLoop None :: frames s) (caps s) (aes s) k)
+                   | V :: k => next (mkShape (FLoop None :: frames s) (caps s) (aes s) k (ext s))
                    | _ => None end
   | IPopLoopFrame rp =>
       match frames s with
@@ -119,9 +123,9 @@ Definition edges (i : instr) (pc : nat) (s : shape) : option (list (nat * shape)
           match popV rp (stk s) with
           | Some k =>
               if cap then match caps s with
-                          | S c => Some [(r, mkShape f c (aes s) (V :: k))]
+                          | S c => Some [(r, mkShape f c (aes s) (V :: k) (ext s))]
                           | O => None end
-              else Some [(r, mkShape f (caps s) (aes s) k)]
+              else Some [(r, mkShape f (caps s) (aes s) k (ext s))]
           | None => None
           end
       | _ => None
@@ -132,17 +136,21 @@ Definition edges (i : instr) (pc : nat) (s : shape) : option (list (nat * shape)
   | IJump t => Some [(t, s)]
   | IJumpIfFalse t => match stk s with V :: k => Some [(S pc, with_stk s k); (t, with_stk s k)] | _ => None end
   | IJumpOrPop t => match stk s with V :: k => Some [(S pc, with_stk s k); (t, s)] | _ => None end
-  | IPushAE => match stk s with V :: k => next (mkShape (frames s) (caps s) (S (aes s)) k) | _ => None end
-  | IPopAE => match aes s with S a => next (mkShape (frames s) (caps s) a (stk s)) | O => None end
-  | IBeginCapture => next (mkShape (frames s) (S (caps s)) (aes s) (stk s))
+  | IPushAE => match stk s with V :: k => next (mkShape (frames s) (caps s) (S (aes s)) k (ext s)) | _ => None end
+  | IPopAE => match aes s with S a => next (mkShape (frames s) (caps s) a (stk s) (ext s)) | O => None end
+  | IBeginCapture => next (mkShape (frames s) (S (caps s)) (aes s) (stk s) (ext s))
   | IEndCapture => match caps s with
-                   | S c => next (mkShape (frames s) c (aes s) (V :: stk s))
+                   | S c => next (mkShape (frames s) c (aes s) (V :: stk s) (ext s))
                    | O => None end
   | IReturn => Some []
   (* calls, summarised: the argument is consumed; a capturing call leaves its value *)
   | ICall false => match stk s with V :: k => next (with_stk s (V :: k)) | _ => None end
   | ICall true => match stk s with B :: k => next (with_stk s (V :: k)) | _ => None end
   | IRecurse => match stk s with V :: k => next (with_stk s k) | _ => None end
+  | ILoadBlocks => match stk s with
+                   | V :: k => if ext s then Some []       (* "tried to extend a second time": the render fails *)
+                               else next (mkShape (frames s) (S (caps s)) (aes s) k true)
+                   | _ => None end
   end.
 
 (* ---- the interprocedural part ---- *)
@@ -168,9 +176,9 @@ Definition rec_targets (C : list instr) : list nat := rec_from 0 C.
 (* shape at the first body instruction of a loop entered by a call: one more loop frame that
    remembers the way back, one more capture for a capturing call, relative to [base] *)
 Definition lift (b s : shape) : shape :=
-  mkShape (frames s ++ frames b) (caps s + caps b) (aes s + aes b) (stk s ++ stk b).
-Definition reg_entry (r : nat) (cap : bool) : shape := mkShape [FLoop (Some (r, cap))] (capn cap) O [].
-Definition ret_rel (cap : bool) : shape := mkShape [] O O (capv cap).
+  mkShape (frames s ++ frames b) (caps s + caps b) (aes s + aes b) (stk s ++ stk b) (ext s || ext b).
+Definition reg_entry (r : nat) (cap : bool) : shape := mkShape [FLoop (Some (r, cap))] (capn cap) O [] false.
+Definition ret_rel (cap : bool) : shape := mkShape [] O O (capv cap) false.
 
 (* the additional successors of a call in the real machine: call + PushLoop of the target
    (the VM jumps to the PushLoop, which takes the argument as iterable and the pending return
@@ -182,45 +190,65 @@ Definition call_edges (C : list instr) (i : instr) (pc : nat) (s : shape) : list
   end.
 
 (* the shape an activation must be in when it ends (Return, or running off the stream):
-   scope, capture and auto-escape depth as at entry and no operand left *)
+   scope, capture and auto-escape depth as at entry and no operand left.  After `extends` the
+   one discard capture LoadBlocks began is still open: the VM ends it when it hands over to the
+   parent template's instructions (eval_impl, `None =>` arm of the instruction fetch), which
+   then run in this very activation from the entry state. *)
 Definition final_ok (s : shape) : bool :=
-  match frames s, caps s, aes s, stk s with [], O, O, [] => true | _, _, _, _ => false end.
+  match frames s, aes s, stk s with
+  | [], O, [] => Nat.eqb (caps s) (if ext s then 1 else 0)
+  | _, _, _ => false
+  end.
 
-(* ---- the checker: one annotated shape per reachable pc, per analysis ---- *)
-Definition ann := list (option shape).
+(* what a program point can rely on whatever path led there: everything but whether `extends`
+   has happened (a conditional extends is legal: then one more - discarding - capture is open) *)
+Definition core (s : shape) : shape :=
+  mkShape (frames s) (caps s - (if ext s then 1 else 0)) (aes s) (stk s) false.
+
+(* ---- the checker: the annotated shapes of every reachable pc, per analysis ---- *)
+(* usually one shape per pc; two where a conditional `extends` has or has not happened *)
+Definition ann := list (list shape).
 
 (* what is analysed: None = the activation of an entry point of the stream (template body, macro
    body, block); Some (r, cap) = one activation of a recursive loop, called from the site before r *)
 Definition mode := option (nat * bool).
 
+Definition in_ann (A : ann) (pc : nat) (s : shape) : bool :=
+  match nth_error A pc with Some l => existsb (shape_eqb s) l | None => false end.
+
 Definition target_ok (C : list instr) (A : ann) (m : mode) (t : nat * shape) : bool :=
   let '(pc', s') := t in
   if Nat.eqb pc' (length C) then match m with None => final_ok s' | Some _ => false end
-  else match nth_error A pc' with Some (Some st) => shape_eqb st s' | _ => false end.
+  else in_ann A pc' s'.
 
 (* the instruction returns from a recursion call *)
 Definition ret_of (i : instr) (s : shape) : option (nat * bool) :=
   match i, frames s with IPopLoopFrame _, FLoop (Some rc) :: _ => Some rc | _, _ => None end.
 
+Definition check_shape (C : list instr) (A : ann) (m : mode) (pc : nat) (i : instr) (s : shape) : bool :=
+  match edges i pc s with
+  | None => false
+  | Some ts =>
+      match ret_of i s with
+      | Some rc =>
+          (* only the activation's own frame may return, and it must leave exactly the call's result *)
+          match m, ts with
+          | Some rc', [(_, s')] => opt_eqb (Some rc) (Some rc') && shape_eqb s' (ret_rel (snd rc))
+          | _, _ => false
+          end
+      | None =>
+          forallb (target_ok C A m) ts
+          && (match i with IReturn => match m with None => final_ok s | Some _ => false end | _ => true end)
+      end
+  end.
+
+(* all shapes annotated at one pc agree up to `extends` *)
+Definition agree (l : list shape) : bool :=
+  match l with [] => true | s :: r => forallb (fun s' => shape_eqb (core s) (core s')) r end.
+
 Definition check_at (C : list instr) (A : ann) (m : mode) (pc : nat) : bool :=
   match nth_error C pc, nth_error A pc with
-  | Some i, Some (Some s) =>
-      match edges i pc s with
-      | None => false
-      | Some ts =>
-          match ret_of i s with
-          | Some rc =>
-              (* only the activation's own frame may return, and it must leave exactly the call's result *)
-              match m, ts with
-              | Some rc', [(_, s')] => opt_eqb (Some rc) (Some rc') && shape_eqb s' (ret_rel (snd rc))
-              | _, _ => false
-              end
-          | None =>
-              forallb (target_ok C A m) ts
-              && (match i with IReturn => match m with None => final_ok s | Some _ => false end | _ => true end)
-          end
-      end
-  | Some _, Some None => true        (* not reachable: unconstrained *)
+  | Some i, Some l => forallb (check_shape C A m pc i) l && agree l      (* [] = not reachable: unconstrained *)
   | _, _ => false
   end.
 
@@ -259,6 +287,8 @@ Fixpoint set_nth {A} (n : nat) (x : A) (l : list A) : list A :=
   | y :: r, S n => y :: set_nth n x r
   end.
 
+Definition MAX_SHAPES : nat := 4.
+
 Fixpoint infer (gas : nat) (C : list instr) (work : list (nat * shape)) (A : ann) : ann :=
   match gas with
   | O => A
@@ -267,25 +297,27 @@ Fixpoint infer (gas : nat) (C : list instr) (work : list (nat * shape)) (A : ann
       | [] => A
       | (pc, s) :: w =>
           match nth_error A pc with
-          | Some None =>
-              let A' := set_nth pc (Some s) A in
-              match nth_error C pc with
-              | Some i => match ret_of i s, edges i pc s with
-                          | None, Some ts => infer g C (ts ++ w) A'
-                          | _, _ => infer g C w A'       (* a return leaves the activation *)
-                          end
-              | None => infer g C w A'
-              end
-          | _ => infer g C w A
+          | Some l =>
+              if existsb (shape_eqb s) l || Nat.leb MAX_SHAPES (length l) then infer g C w A
+              else
+                let A' := set_nth pc (l ++ [s]) A in
+                match nth_error C pc with
+                | Some i => match ret_of i s, edges i pc s with
+                            | None, Some ts => infer g C (ts ++ w) A'
+                            | _, _ => infer g C w A'       (* a return leaves the activation *)
+                            end
+                | None => infer g C w A'
+                end
+          | None => infer g C w A
           end
       end
   end.
 
-Definition shape0 : shape := mkShape [] O O [].
-Definition entry_shape (nargs : nat) : shape := mkShape [] O O (repeat V nargs).
+Definition shape0 : shape := mkShape [] O O [] false.
+Definition entry_shape (nargs : nat) : shape := mkShape [] O O (repeat V nargs) false.
 
 Definition annotate (C : list instr) (entries : list (nat * shape)) : ann :=
-  infer (4 * length C + 4 * length entries + 8) C entries (repeat None (length C)).
+  infer (24 * length C + 4 * length entries + 8) C entries (repeat [] (length C)).
 
 (* verdict: Some pc = first pc the checker rejects (length C = an entry rejected); None = accepted *)
 Fixpoint first_bad (f : nat -> bool) (l : list nat) : option nat :=
